@@ -1,5 +1,5 @@
 From Coq Require Import List ZArith Bool.
-From QV Require Import Kernel.Ret Kernel.RetProofs.
+From QV Require Import Kernel.Ret Kernel.RetProofs Kernel.RetForest.
 Import ListNotations.
 Local Open Scope Z_scope.
 
@@ -37,13 +37,34 @@ Theorem ret_value_is_result : forall k v, delivered k v = delivered_spec k v.
 Proof. exact delivered_is_spec. Qed.
 Print Assumptions ret_value_is_result.
 
-(* one team level (members + direct subteams); a subteam reports completion from its own leader's exit, so the statement
-   for the whole tree follows by applying this theorem level by level -- that induction over trees is not formalised *)
-Theorem team_ret_after_members_partial : forall tr w,
+(* one team level (members + direct subteams): the lemma the whole-tree theorem rests on *)
+Theorem team_ret_after_members_one_level : forall tr w,
   let s := trun (team_init w) tr in
   t_lph s = LDone -> t_live s = 0 /\ t_sublive s = 0.
 Proof. exact RetProofs.team_ret_after_members. Qed.
-Print Assumptions team_ret_after_members_partial.
+Print Assumptions team_ret_after_members_one_level.
+
+(* every reachable forest: each team's subteams counter equals the number of its direct subteams not yet done *)
+Theorem team_forest_invariant : forall tr w, finv (frun (forest_init w) tr).
+Proof. exact finv_reachable. Qed.
+Print Assumptions team_forest_invariant.
+
+(* the whole tree: for every order of member spawns / finishes, subteam creations at any depth, leader steps and exits,
+   once team a's leader has left qt_internal_teamfinish (only then is a's return value delivered) team a has no unfinished
+   member and every transitive subteam is done and has no unfinished member *)
+Theorem team_ret_after_members : forall tr w a ea,
+  let l := frun (forest_init w) tr in
+  nth_error l a = Some ea -> t_lph (f_t ea) = LDone ->
+  t_live (f_t ea) = 0 /\
+  forall d ed, anc l a d -> nth_error l d = Some ed -> t_lph (f_t ed) = LDone /\ t_live (f_t ed) = 0.
+Proof. exact team_ret_after_members_tree. Qed.
+Print Assumptions team_ret_after_members.
+
+Theorem team_exit_not_refused : forall tr w i x t',
+  let l := frun (forest_init w) tr in
+  nth_error l i = Some x -> tstep (f_t x) TLeaderExit = Some t' -> exists l', fstep l (FExit i) = Some l'.
+Proof. exact exit_not_refused. Qed.
+Print Assumptions team_exit_not_refused.
 
 Theorem team_leader_waits : forall tr w,
   let s := trun (team_init w) tr in
